@@ -104,7 +104,7 @@ fn execute(sc: &Scenario, st: &mut RunStats) -> Vec<Violation> {
     // filler: one more honest single-commitment proof, repeated in front of the members
     let filler = if sc.fillers > 0 {
         let cfg = Config { bits: sc.bits, m: 1, cap: 1, ext: sc.ext };
-        let wit = WitnessSpec { values: vec![0], promises: vec![None], blind_seed: sc.c_seed ^ 0xF111, seed_nonce: None, zero_blind: vec![] };
+        let wit = WitnessSpec { values: vec![0], promises: vec![None], blind_seed: sc.c_seed ^ 0xF111, seed_nonce: None, zero_blind: vec![], same_as_prev: vec![] };
         let ctx = Context { label: 5, extra: None };
         let built = build::<FreePoint>(&cfg, &wit);
         match prove_mode::<FreePoint>(&ctx, &built.statement, &built.witness, &RngMode::Healthy(sc.c_seed ^ 0xF112)).0 {
